@@ -181,9 +181,11 @@ func cmdCheck(args []string) int {
 	}
 	seed, _ := strconv.Atoi(os.Getenv("VERIF_SEED"))
 	t0 := time.Now()
-	timeout := 20
+	// per-query limits (seconds). A run without violations never waits for them: they only bound how long an undecided
+	// query is pursued, and are generous so that a loaded machine does not turn a 5 s proof into an "unknown".
+	timeout := 60
 	if *tier == "thorough" {
-		timeout = 90
+		timeout = 240
 	}
 	pats := propPackages[*prop]
 	if pats == nil {
